@@ -316,3 +316,35 @@ def _search_with_literals(it, p, s, *a, **k):
 
 
 PATTERN_METHODS["search"] = _search_with_literals
+
+
+# ---------------------------------------------------------------------------------------------------------------------
+# str.isspace / bytes.isspace: exact (non-empty and every character in the whitespace set of CPython)
+
+_STR_SPACE = [c for c in range(0x30000) if chr(c).isspace()]
+_BYTES_SPACE = [9, 10, 11, 12, 13, 32]
+
+
+def _ws_regex(codes):
+    rs = []
+    i = 0
+    while i < len(codes):
+        j = i
+        while j + 1 < len(codes) and codes[j + 1] == codes[j] + 1:
+            j += 1
+        rs.append(z3.Range(chr(codes[i]), chr(codes[j])))
+        i = j + 1
+    return z3.Plus(z3.Union(*rs) if len(rs) > 1 else rs[0])
+
+
+def _isspace(it, s):
+    c = s.concrete()
+    if c is not None:
+        return lift(c.isspace())
+    return SBool(z3.InRe(s.t, _ws_regex(_BYTES_SPACE if isinstance(s, SBytes) else _STR_SPACE)))
+
+
+if (SStr, "isspace") not in METHODS:
+    METHODS[(SStr, "isspace")] = _isspace
+if (SBytes, "isspace") not in METHODS:
+    METHODS[(SBytes, "isspace")] = _isspace
